@@ -110,9 +110,17 @@ def do_op(ch, twin, o):
                             pass
                         except Exception:  # noqa: BLE001
                             ok = False
-                # (assignment of a brand-new, non-field attribute is NOT probed: TextEvent/SectionEvent/LyricEvent/
-                #  StarPowerEvent are undecorated subclasses of frozen dataclasses and accept new attributes; the
-                #  property speaks of the objects' attributes — interpretation I6 in DESIGN.md)
+                # non-field names too: derived attributes (cached properties such as end_tick, longest_sustain,
+                # last_note_end_timestamp, header_tag) and a brand-new name.  (Finding F5: the four undecorated leaf
+                # event classes used to accept these; repaired by a fix: commit.)
+                for name in ("end_tick", "longest_sustain", "last_note_end_timestamp", "header_tag", "brand_new_attribute"):
+                    try:
+                        setattr(obj, name, 1)
+                        ok = False
+                    except dataclasses.FrozenInstanceError:
+                        pass
+                    except Exception:  # noqa: BLE001
+                        ok = False
             return "(RErr EFrozen)" if ok else "RDone"
     except Exception as e:  # noqa: BLE001
         return "(RErr %s)" % pyval.errkind(e)
